@@ -7,7 +7,12 @@ Extracted (fail closed on anything else):
   * `FitRange2D.check`, `FitRange3D.check`: a sequence of `if [not] <comparison>: raise ValueError(...)` and
     `if <bound> is None: raise ValueError(...)`;
   * the dispatch of `check_fit_ranges` (absent target accepted; out guards only if `out_fit_range`;
-    2D/3D check called with rows, cols[, readout_times]).
+    2D/3D check called with rows, cols[, readout_times]);
+  * pyxel/calibration/fitting_datatree.py, `ModelFittingDataTree.__init__`: the two calls of `check_fit_ranges`
+    (time-domain branch / single-readout branch) — which quantity is passed as rows / cols / readout_times:
+    the size of the target data read from file (`len(targets["y"])`, `targets.sizes["y"]`, `targets.shape[i]`,
+    a name unpacked from `targets_4d.shape` ...), the size of the simulated frame (`processor.detector.geometry.row`,
+    `len(readout.times)` ...), or nothing -> Model.Fitness.calls.
 """
 from __future__ import annotations
 
@@ -110,7 +115,205 @@ def _check_dispatch(fn: ast.FunctionDef):
         fail(s2, "expected the 2D/3D dispatch to target_fit_range.check(...)")
 
 
-def render(out_guards, c2, c3) -> str:
+# ------------------------------------------------------------------------------------------ call sites
+
+REL_FIT = "pyxel/calibration/fitting_datatree.py"
+DIMKEY = {"readout_time": "DTime", "y": "DRow", "x": "DCol"}
+GEOM = {"row": "DRow", "col": "DCol"}
+TARGET_DIMS = {"single": ["processor", "y", "x"], "multi": ["processor", "readout_time", "y", "x"]}
+
+
+def _str_const(node):
+    return node.value if isinstance(node, ast.Constant) and isinstance(node.value, str) else None
+
+
+def _assignments(stmts) -> dict:
+    """name -> list of (value node, index in a tuple target or None) for every plain assignment in `stmts`
+    (nested blocks included)"""
+    env: dict = {}
+    for st in stmts:
+        for n in ast.walk(st):
+            tgts, val = [], None
+            if isinstance(n, ast.Assign):
+                tgts, val = n.targets, n.value
+            elif isinstance(n, ast.AnnAssign) and n.value is not None:
+                tgts, val = [n.target], n.value
+            for t in tgts:
+                if isinstance(t, ast.Name):
+                    env.setdefault(t.id, []).append((val, None))
+                elif isinstance(t, (ast.Tuple, ast.List)):
+                    for i, e in enumerate(t.elts):
+                        if isinstance(e, ast.Name):
+                            env.setdefault(e.id, []).append((val, (i, len(t.elts))))
+    return env
+
+
+class _Sites:
+    def __init__(self, fn: ast.FunctionDef):
+        self.fn = fn
+
+    def is_target_array(self, node, env, mode, depth=0) -> list | None:
+        """dims of `node` if it denotes the target data read from the target file(s), else None"""
+        if depth > 6:
+            return None
+        if isinstance(node, ast.Name):
+            vals = env.get(node.id, [])
+            if len(vals) != 1 or vals[0][1] is not None:
+                return None
+            return self.is_target_array(vals[0][0], env, mode, depth + 1)
+        if isinstance(node, ast.Subscript) and isinstance(node.slice, ast.Constant) \
+                and isinstance(node.slice.value, int) and not isinstance(node.slice.value, bool):
+            inner = self.is_target_array(node.value, env, mode, depth + 1)      # one target file: X[0]
+            return inner[1:] if inner and inner[0] == "processor" else None
+        if isinstance(node, ast.Call):
+            f = ast.unparse(node.func)
+            kw = {k.arg: k.value for k in node.keywords}
+            if f in ("create_processor_data_array", "read_datacubes") and not node.args \
+                    and set(kw) == {"filenames"} and ast.unparse(kw["filenames"]) == "target_filenames":
+                return ["processor", "y", "x"] if f == "create_processor_data_array" else \
+                    ["processor", "readout_time", "y", "x"]
+            if f in ("np.array", "np.asarray", "numpy.array", "numpy.asarray") and len(node.args) == 1 and not kw:
+                return self.is_target_array(node.args[0], env, mode, depth + 1)
+            if f in ("xr.DataArray", "xarray.DataArray", "DataArray") and node.args and "dims" in kw \
+                    and isinstance(kw["dims"], (ast.List, ast.Tuple)):
+                dims = [_str_const(e) for e in kw["dims"].elts]
+                inner = self.is_target_array(node.args[0], env, mode, depth + 1)
+                if inner is not None and len(inner) == len(dims) and all(dims):
+                    if dims != inner:
+                        fail(node, "target data array built with unexpected dimension names")
+                    return dims
+        return None
+
+    def dim_of_index(self, dims, node):
+        if isinstance(node, ast.Constant) and isinstance(node.value, int) and not isinstance(node.value, bool):
+            i = node.value
+        elif isinstance(node, ast.UnaryOp) and isinstance(node.op, ast.USub) and isinstance(node.operand, ast.Constant):
+            i = -node.operand.value
+        else:
+            return None
+        if not -len(dims) <= i < len(dims):
+            return None
+        return dims[i]
+
+    def is_readout_times(self, node) -> bool:
+        return ast.unparse(node) in ("self.readout.times", "readout.times")
+
+    def quantity(self, node, env, mode, depth=0) -> str:
+        """Gallina `qty` of the expression passed as rows / cols / readout_times"""
+        if depth > 6:
+            fail(node, "size expression too deep")
+        if isinstance(node, ast.Constant) and node.value is None:
+            return "QAbsent"
+        # a local name: follow its unique assignment
+        if isinstance(node, ast.Name):
+            vals = env.get(node.id, [])
+            if len(vals) != 1:
+                fail(node, f"size name {node.id!r} has {len(vals)} assignments in this branch")
+            val, pos = vals[0]
+            if pos is None:
+                return self.quantity(val, env, mode, depth + 1)
+            # a, b, c = <array>.shape
+            if isinstance(val, ast.Attribute) and val.attr == "shape":
+                dims = self.is_target_array(val.value, env, mode)
+                if dims is not None and len(dims) == pos[1] and dims[pos[0]] in DIMKEY:
+                    return f"(QTgt {DIMKEY[dims[pos[0]]]})"
+            fail(node, "unsupported tuple assignment of a size")
+        # int(...) wrapper
+        if isinstance(node, ast.Call) and isinstance(node.func, ast.Name) and node.func.id == "int" \
+                and len(node.args) == 1 and not node.keywords:
+            return self.quantity(node.args[0], env, mode, depth + 1)
+        # len(X["dim"]) / len(X.coords["dim"]) / len(X.dim) ; len(readout.times)
+        if isinstance(node, ast.Call) and isinstance(node.func, ast.Name) and node.func.id == "len" \
+                and len(node.args) == 1 and not node.keywords:
+            a = node.args[0]
+            if self.is_readout_times(a):
+                return "(QDet DTime)"
+            if isinstance(a, ast.Subscript):
+                base = a.value.value if isinstance(a.value, ast.Attribute) and a.value.attr in ("coords", "indexes") \
+                    else a.value
+                dims = self.is_target_array(base, env, mode)
+                key = _str_const(a.slice)
+                if dims is not None and key in dims and key in DIMKEY:
+                    return f"(QTgt {DIMKEY[key]})"
+            if isinstance(a, ast.Attribute) and a.attr in DIMKEY:
+                dims = self.is_target_array(a.value, env, mode)
+                if dims is not None and a.attr in dims:
+                    return f"(QTgt {DIMKEY[a.attr]})"
+            fail(node, "unsupported len(...) passed to check_fit_ranges")
+        # X.sizes["dim"] / X.shape[i] / X["dim"].size
+        if isinstance(node, ast.Subscript) and isinstance(node.value, ast.Attribute) and node.value.attr in ("sizes", "shape"):
+            dims = self.is_target_array(node.value.value, env, mode)
+            if dims is not None:
+                key = _str_const(node.slice) if node.value.attr == "sizes" else self.dim_of_index(dims, node.slice)
+                if key in dims and key in DIMKEY:
+                    return f"(QTgt {DIMKEY[key]})"
+            fail(node, "unsupported sizes/shape expression passed to check_fit_ranges")
+        if isinstance(node, ast.Attribute) and node.attr == "size":
+            if self.is_readout_times(node.value):
+                return "(QDet DTime)"
+            a = node.value
+            if isinstance(a, ast.Subscript):
+                dims = self.is_target_array(a.value, env, mode)
+                key = _str_const(a.slice)
+                if dims is not None and key in dims and key in DIMKEY:
+                    return f"(QTgt {DIMKEY[key]})"
+            fail(node, "unsupported .size expression passed to check_fit_ranges")
+        # detector geometry: processor.detector.geometry.row / <name bound to ...geometry>.row
+        if isinstance(node, ast.Attribute) and node.attr in GEOM:
+            g = node.value
+            if isinstance(g, ast.Name):
+                vals = env.get(g.id, [])
+                if len(vals) == 1 and vals[0][1] is None:
+                    g = vals[0][0]
+            if ast.unparse(g) in ("processor.detector.geometry", "self.processor.detector.geometry"):
+                return f"(QDet {GEOM[node.attr]})"
+        fail(node, "unsupported quantity passed to check_fit_ranges")
+
+
+def _call_sites(tree) -> tuple[str, str]:
+    fn = find_func(tree, "__init__", cls="ModelFittingDataTree")
+    sites = _Sites(fn)
+    branch_ifs = [n for n in ast.walk(fn) if isinstance(n, ast.If)
+                  and ast.unparse(n.test) in ("self.readout.time_domain_simulation", "readout.time_domain_simulation")]
+    if len(branch_ifs) != 1 or not branch_ifs[0].orelse:
+        fail(fn, "expected one `if self.readout.time_domain_simulation: ... else: ...` in ModelFittingDataTree.__init__")
+    node_if = branch_ifs[0]
+    all_calls = [n for n in ast.walk(fn) if isinstance(n, ast.Call) and ast.unparse(n.func).split(".")[-1] == "check_fit_ranges"]
+    out = {}
+    for mode, stmts in (("multi", node_if.body), ("single", node_if.orelse)):
+        calls = [n for st in stmts for n in ast.walk(st)
+                 if isinstance(n, ast.Call) and ast.unparse(n.func).split(".")[-1] == "check_fit_ranges"]
+        if len(calls) != 1:
+            fail(node_if, f"expected exactly one call of check_fit_ranges in the {mode} branch, found {len(calls)}")
+        call = calls[0]
+        if not any(isinstance(st, ast.Expr) and st.value is call for st in stmts):
+            fail(call, "check_fit_ranges must be called unconditionally as a statement of the branch")
+        if call.args:
+            fail(call, "check_fit_ranges must be called with keyword arguments")
+        kw = {k.arg: k.value for k in call.keywords}
+        if None in kw or not {"target_fit_range", "out_fit_range", "rows", "cols"} <= set(kw) \
+                or not set(kw) <= {"target_fit_range", "out_fit_range", "rows", "cols", "readout_times"}:
+            fail(call, "unexpected keywords in the call of check_fit_ranges")
+        if ast.unparse(kw["target_fit_range"]) != "target_fit_range" or ast.unparse(kw["out_fit_range"]) != "out_fit_range":
+            fail(call, "check_fit_ranges must receive target_fit_range / out_fit_range unchanged")
+        # names assigned in this branch (only statements before the call count) or before the branch
+        idx = next(i for i, st in enumerate(stmts) if isinstance(st, ast.Expr) and st.value is call)
+        env = _assignments(stmts[:idx])
+        outer = _assignments([st for st in ast.walk(fn) if isinstance(st, (ast.Assign, ast.AnnAssign))
+                              and st.lineno < node_if.lineno])
+        for k, v in outer.items():
+            env.setdefault(k, v)
+        q = {k: sites.quantity(kw[k], env, mode) for k in ("rows", "cols")}
+        q["readout_times"] = sites.quantity(kw["readout_times"], env, mode) if "readout_times" in kw else "QAbsent"
+        if "QAbsent" in (q["rows"], q["cols"]):
+            fail(call, "rows / cols must be given")
+        out[mode] = f"{{| cs_rows := {q['rows']}; cs_cols := {q['cols']}; cs_times := {q['readout_times']} |}}"
+    if len(all_calls) != 2:
+        fail(fn, f"expected two calls of check_fit_ranges in ModelFittingDataTree.__init__, found {len(all_calls)}")
+    return out["single"], out["multi"]
+
+
+def render(out_guards, c2, c3, single=None, multi=None) -> str:
     def lst(gs):
         return "[ " + ";\n      ".join(gs) + " ]"
     return (HEADER + "From Coq Require Import ZArith List.\nFrom PyxelV Require Import Model.Fitness.\n"
@@ -118,7 +321,13 @@ def render(out_guards, c2, c3) -> str:
             "Definition src_checker : checker :=\n"
             f"  {{| out_guards :=\n      {lst(out_guards)};\n"
             f"     check2d :=\n      {lst(c2)};\n"
-            f"     check3d :=\n      {lst(c3)} |}}.\n")
+            f"     check3d :=\n      {lst(c3)} |}}.\n"
+            "Definition src_calls : calls :=\n"
+            f"  {{| call_single := {single or CALL_SINGLE};\n     call_multi := {multi or CALL_MULTI} |}}.\n")
+
+
+CALL_SINGLE = "{| cs_rows := (QTgt DRow); cs_cols := (QTgt DCol); cs_times := QAbsent |}"
+CALL_MULTI = "{| cs_rows := (QTgt DRow); cs_cols := (QTgt DCol); cs_times := (QTgt DTime) |}"
 
 
 def translate(repo: Path) -> str:
@@ -136,7 +345,8 @@ def translate(repo: Path) -> str:
         fail(f3, "FitRange3D.check signature")
     c2 = _guards(f2, {"self": "Tgt"}, allow_pre=False)
     c3 = _guards(f3, {"self": "Tgt"}, allow_pre=False)
-    return render(og, c2, c3)
+    single, multi = _call_sites(parse(repo, REL_FIT))
+    return render(og, c2, c3, single, multi)
 
 
 FALLBACK = render(
